@@ -46,7 +46,8 @@ TIERS = {
     "quick": {
         "gen": [("DefAssign_gflow", 50, "1 variable, <= 4 statements, <= 1 compound of {if, while, for}, leaves asg/del/read/mr/raise/ret/brk/cnt"),
                 ("DefAssign_gtry", 60, "1 variable, <= 4 statements, 1 try (handlers (), (V), (*), as-name, finally), leaves asg/del/read/mr"),
-                ("DefAssign_gmisc", 60, "2 variables, <= 3 statements, <= 1 compound of {match, with, if}, leaves asg/read/cread/wal/cex/comp/ret + dead assignments")],
+                ("DefAssign_gmisc", 60, "2 variables, <= 3 statements, <= 1 compound of {match, with, if}, leaves asg/read/cread/wal/cex/comp/ret + dead assignments"),
+                ("DefAssign_gtry5", 45, "variable bound on entry, then <= 4 statements: 1 try (bare except, optional finally), leaves del/read/mr")],
         "sim": ("DefAssign_gsim", 120, 14, 1500, 50, "random growth: 3 variables, <= 10 statements, nesting <= 3, <= 4 compound statements, all kinds"),
         "run": "DefAssign_run", "per_module": 45,
     },
@@ -54,7 +55,8 @@ TIERS = {
         "gen": [("DefAssign_gflow", 220, "1 variable, <= 4 statements, <= 1 compound of {if, while, for}, leaves asg/del/read/mr/raise/ret/brk/cnt"),
                 ("DefAssign_gtry", 220, "1 variable, <= 4 statements, 1 try (handlers (), (V), (*), as-name, finally), leaves asg/del/read/mr"),
                 ("DefAssign_gmisc", 220, "2 variables, <= 3 statements, <= 1 compound of {match, with, if}, leaves asg/read/cread/wal/cex/comp/ret + dead assignments"),
-                ("DefAssign_gtry5", 260, "1 variable, <= 5 statements, 1 try (bare except, optional finally), leaves asg/del/read/mr")],
+                ("DefAssign_gtry5", None, "variable bound on entry, then <= 4 statements: 1 try (bare except, optional finally), leaves del/read/mr "
+                                          "-- the WHOLE family is replayed")],
         "sim": ("DefAssign_gsim", 240, 16, 6000, 160, "random growth: 3 variables, <= 10 statements, nesting <= 3, <= 4 compound statements, all kinds"),
         "run": "DefAssign_runt", "per_module": 50,
     },
@@ -152,6 +154,16 @@ def classify(rec, cobs, info, cfg):
     if crashed:
         obs = "crash"
         resp = fails[0] if fails else nxt
+        # the compiler's "cannot be unbound here" claims that the spec refutes on this path, in the gap where the child died
+        bad = [v for v in rec["fv"] if v[1] == "mn" and v[3] == k]
+        if bad and not (fails and bad[0][0] == fails[0][0]):
+            sid = bad[0][0]
+            st = info["stmts"].get(sid) or info["stmts"][sid // 100]
+            var = st["v"] if sid in info["stmts"] else st["hs"][sid % 100 - 1]["v"]
+            d = {"config": cfg, "spec_out": sout, "ev": st["t"] if sid in info["stmts"] else "except-as",
+                 "spec": "unbound_at_assignment", "read_maybe_unbound": False, "is_null_fact": False}
+            d.update(var_features(info, var, cfg))
+            return d, obs
     elif k < len(clog):
         ce = clog[k]
         same = [e for e in fails if e[0] == ce[0]]
@@ -176,20 +188,23 @@ def classify(rec, cobs, info, cfg):
         return d, obs
     s = stmts[sid]
     var = s["r"] if s["t"] == "comp" else s["v"]
-    vname = ld.VNAMES[var]
-    ty = (info["types"].get(cfg) or {}).get(vname) or {}
     d.update({"ev": s["t"], "spec": "unbound" if resp[1] < 0 else "value",
-              "read_maybe_unbound": resp[3] >= 1, "is_null_fact": resp[3] == 2,
-              "inferred_ctype": ty.get("ctype", "?").strip(), "c_numeric": bool(ty.get("numeric", False)),
-              "closure_var": var in info["cells"],
-              "match_with_default": any(x["t"] == "match" and x["v"] == var and x["d"] for x in ld.walk(info["prog"])),
-              "binders": "+".join(sorted(ld.binders(info["prog"], var))) or "none"})
+              "read_maybe_unbound": resp[3] >= 1, "is_null_fact": resp[3] == 2})
+    d.update(var_features(info, var, cfg))
     if resp[1] < 0:
         why = {-1: "never_bound", -2: "del", -3: "except_as_cleanup"}[resp[1]]
         d["why_unbound"] = why
         if why != "never_bound":
             d["use_vs_try_of_unbinder"] = relation(chain, resp[2], sid) if why == "del" else "after_handler"
     return d, obs
+
+
+def var_features(info, var, cfg):
+    ty = (info["types"].get(cfg) or {}).get(ld.VNAMES[var]) or {}
+    return {"inferred_ctype": ty.get("ctype", "?").strip(), "c_numeric": bool(ty.get("numeric", False)),
+            "closure_var": var in info["cells"],
+            "match_with_default": any(x["t"] == "match" and x["v"] == var and x["d"] for x in ld.walk(info["prog"])),
+            "binders": "+".join(sorted(ld.binders(info["prog"], var))) or "none"}
 
 
 # --------------------------------------------------------------------------- the check
@@ -237,7 +252,7 @@ def run(tier, seed, only=None):
     selected, gen_cov, n_enum = [], collections.Counter(), 0
     states = transitions = 0
     if only is None:
-        with concurrent.futures.ThreadPoolExecutor(max_workers=3) as ex:
+        with concurrent.futures.ThreadPoolExecutor(max_workers=4) as ex:
             futs = [(cfg, n, what, ex.submit(tlc_gen, cfg, max(2, workers // 2))) for cfg, n, what in T["gen"]]
             simcfg, simsec, simdepth, simmax, simn, simwhat = T["sim"]
             # one worker + a record cap that is reached well before the time budget: the same seed gives the same programs
@@ -255,7 +270,7 @@ def run(tier, seed, only=None):
             for a, (d, tot) in r.coverage.items():
                 if a in GEN_ACTIONS:
                     gen_cov[a] += tot
-            pick = stratified(progs, n, rng)
+            pick = stratified(progs, n, rng) if n is not None else list(progs)
             cov["tlc"].append(dict(r.summary(), config=cfg, what=what, programs_published=len(progs), programs_selected=len(pick), exhaustive=True))
             for p in pick:
                 c = ld.canon(p)
@@ -399,23 +414,35 @@ def run(tier, seed, only=None):
             fname = info["fname"]
             l0 = mod["first"][fname]
             r = mod["rend"][fname]
+            def merge(fs, what):
+                fx = {}
+                for f in fs:          # one NameNode per copy of the enclosing finally blocks
+                    code = 2 if f["isn"] else (1 if f["mn"] else 0)
+                    if f["ctx"] in fx and fx[f["ctx"]] != code:
+                        fact_stats[what + "_with_conflicting_facts_in_one_context"] += 1
+                        code = min(code, fx[f["ctx"]])
+                    fx[f["ctx"]] = code
+                if len(fx) > 1:
+                    fact_stats[what + "_compiled_in_several_finally_copies"] += 1
+                return fx
+
             for sid, (off, vname) in r.use_line.items():
-                s = info["stmts"][sid]
                 fs = gen_by_pos.get((l0 + off, vname))
                 if not fs:
                     fact_stats["uses_without_fact(unreachable for the compiler)"] += 1
                     continue
                 fact_stats["uses_with_fact"] += 1
-                fx = {}
-                for f in fs:          # one NameNode per copy of the enclosing finally blocks
-                    code = 2 if f["isn"] else (1 if f["mn"] else 0)
-                    if f["ctx"] in fx and fx[f["ctx"]] != code:
-                        fact_stats["uses_with_conflicting_facts_in_one_context"] += 1
-                        code = min(code, fx[f["ctx"]])
-                    fx[f["ctx"]] = code
-                if len(fx) > 1:
-                    fact_stats["uses_compiled_in_several_finally_copies"] += 1
-                s["fx"] = fx
+                info["stmts"][sid]["fx"] = merge(fs, "uses")
+            for sid, (off, vname) in r.bind_line.items():
+                fs = [f for f in gen_by_pos.get((l0 + off, vname), []) if f.get("target")]
+                if not fs:
+                    fact_stats["binders_without_fact(unreachable for the compiler)"] += 1
+                    continue
+                fact_stats["binders_with_fact"] += 1
+                if sid in info["stmts"]:
+                    info["stmts"][sid]["fx"] = merge(fs, "binders")
+                else:                                   # `as` name of handler j of try statement sid // 100
+                    info["stmts"][sid // 100]["hs"][sid % 100 - 1]["fx"] = merge(fs, "binders")
             for cname, b in bs.items():
                 for key, tys in ((b.facts or {}).get("types") or {}).items():
                     if key.split("@")[0] == fname:
@@ -436,7 +463,7 @@ def run(tier, seed, only=None):
     def strip(blk):
         return [dict({k: s[k] for k in ("t", "id", "v", "r", "c", "g", "d")}, fx=s.get("fx") or {"c": 1},
                      a=strip(s["a"]), b=strip(s["b"]), f=strip(s["f"]),
-                     hs=[{"c": h["c"], "v": h["v"], "a": strip(h["a"])} for h in s["hs"]]) for s in blk]
+                     hs=[{"c": h["c"], "v": h["v"], "a": strip(h["a"]), "fx": h.get("fx") or {"c": 1}} for h in s["hs"]]) for s in blk]
     allp = sorted(progs)            # rejected programs are explored too (expected behaviour of CPython, drift check)
     core.write_ndjson(progfile, [{"pid": pid, "prog": strip(progs[pid]["prog"])} for pid in allp])
     r = core.tlc("DefAssign", T["run"], workers=workers, env={"PROGS": progfile}, coverage=True, timeout=3000, heap="6g")
@@ -522,14 +549,14 @@ def run(tier, seed, only=None):
     # fact verdicts decided by TLC (per use: unsound maybe_null / unsound is_null), reported in the evidence
     for pid in allp:
         for rec in paths[pid]:
-            for sid, kind, ctx in rec["fv"]:
+            for sid, kind, ctx, nre in rec["fv"]:
                 fv_events[(pid, sid, kind, ctx)] += 1
     # lenient-mode rejections: the property says definitely-unbound names become run-time errors there
     for pid, info in progs.items():
         for e in info.get("lenient_errors", []):
             d = {"config": e["config"], "ev": "compile", "spec": "accepted_by_cpython", "msg_class": e["msg_class"],
                  "binders": "+".join(sorted(ld.binders(info["prog"], e["var"]))) if e["var"] else "none",
-                 "binders_never_executed": bool(e["var"]) and binders_never_executed(info, e["var"], paths[pid])}
+                 "local_only_by_unreachable_statements": bool(e["var"]) and declarers_never_executed(info, e["var"], paths[pid])}
             cls_count["compile_error_lenient"] += 1
             rep.disagree(d, "compile_error_lenient", {"source": "\n".join(ld.render(info["prog"], info["fname"], info["vk"]).lines),
                                                        "error": e["msg"], "line_offset": e["line_offset"], "program": strip(info["prog"])})
@@ -671,12 +698,13 @@ def has_dead_code(prog):
     return blk(prog)
 
 
-def binders_never_executed(info, var, recs):
-    """spec side (decided by the run phase): on no explored path a statement that binds `var` is executed
-    (all its binders are unreachable, e.g. they follow a return)."""
+def declarers_never_executed(info, var, recs):
+    """spec side (decided by the run phase): the name is local only because of statements (binders, del) that are
+    executed on no explored path, e.g. they follow a return or stand in the else clause of a try whose body returns."""
     prog = info["prog"]
     ids = {s["id"] for s in ld.walk(prog) if s["v"] == var and s["t"] in ("asg", "wal", "for", "with", "match")}
     marks = {s["id"] * 100 + j for s in ld.walk(prog) for j, h in enumerate(s["hs"], 1) if h["v"] == var}
+    marks |= {s["id"] for s in ld.walk(prog) if s["v"] == var and s["t"] == "del"}
     if not ids and not marks:
         return False
     for rec in recs:
